@@ -85,3 +85,58 @@ func c01SetRange(n, m int) {
 func Verif_C01_SetRange_3_1() { c01SetRange(3, 1) }
 func Verif_C01_SetRange_2_2() { c01SetRange(2, 2) }
 func Verif_C01_SetRange_1_3() { c01SetRange(1, 3) }
+
+// Verif_C01_SetRangeBinary: SETRANGE on values and with operands that are not ASCII — multi-byte UTF-8
+// sequences, bytes >= 0x80 that are not valid UTF-8, NUL — at every offset inside the value: no crash,
+// exactly the addressed bytes change, nothing is re-encoded.
+func Verif_C01_SetRangeBinary() {
+	s := verifServer()
+	k := vr.Tok("k")
+	v := []string{"\xc3\xa9a", "\xffab", "a\x80", "\x00\xe2\x82\xac"}[vr.Choose("value", 4)]
+	x := []string{"z", "\xfe", "\xc3\xa9", "\x00"}[vr.Choose("operand", 4)]
+	verifPreset(s, 0, k, v)
+	off := vr.Choose("offset", len(v)+1)
+	reply, err, panicked := verifRun(s, "SETRANGE", k, itoa(off), x)
+	vr.Assert(!panicked, "C01.setrange_binary.nopanic")
+	if panicked {
+		vr.Reach("end")
+		return
+	}
+	vr.Assert(err == nil, "C01.setrange_binary.noerror")
+	want := v[:off] + x
+	if off+len(x) < len(v) {
+		want += v[off+len(x):]
+	}
+	e, ok := s.store[0][k]
+	sv, isS := e.Value.(string)
+	vr.Assert(ok && isS && sv == want, "C01.setrange_binary.changes_exactly_the_addressed_bytes")
+	if err == nil {
+		vr.Assert(string(reply) == ":"+itoa(len(want))+"\r\n", "C01.setrange_binary.replies_the_new_length")
+	}
+	vr.Reach("end")
+}
+
+// Verif_C01_SetRangeMissingKey: SETRANGE on a key that does not exist creates it (the repository's
+// documented behaviour: the new string is the operand); the reply is the length of what a later
+// STRLEN / GET sees.
+func Verif_C01_SetRangeMissingKey() {
+	s := verifServer()
+	k := vr.Tok("k")
+	x := gBytes("x", 2)
+	off := vr.Int("offset")
+	vr.Assume(off >= 0 && off <= 1000)
+	reply, err, panicked := verifRun(s, "SETRANGE", k, itoa(off), x)
+	vr.Assert(!panicked && err == nil, "C01.setrange_missing.noerror")
+	if panicked || err != nil {
+		vr.Reach("end")
+		return
+	}
+	e, ok := s.store[0][k]
+	sv, isS := e.Value.(string)
+	vr.Assert(ok && isS, "C01.setrange_missing.key_is_created")
+	if ok && isS {
+		vr.Assert(string(reply) == ":"+itoa(len(sv))+"\r\n", "C01.setrange_missing.reply_is_the_length_of_the_stored_value")
+		vr.Assert(len(sv) >= len(x) && sv[len(sv)-len(x):] == x, "C01.setrange_missing.stored_value_ends_with_the_operand")
+	}
+	vr.Reach("end")
+}
